@@ -98,13 +98,38 @@ pub fn configs18() -> Vec<Cfg18> {
             v.push(Cfg18 { name: format!("sweep-hetero-ch8-odd{}-t{}", odd, t), stream_api: false, ch: 8, bps: 16, lpc: Some(2), mid_side: true, fast: false, signal: HETERO + (t << (3 * odd)), frames: 16, block: 16, window: 0 });
         }
     }
+    // "click tracks": one tonal channel (LPC analysis succeeds and LPC beats FIXED) next to channels that hold a single
+    // odd-valued impulse per block (LPC analysis FAILS there); three 256-sample blocks, so that whatever the tasks remember
+    // about earlier failures or successes is carried from frame to frame. Full budget (names without the sweep prefix).
+    for (ch, tonal) in [(8u8, 0u8), (8, 7), (6, 0), (5, 0), (3, 1)] {
+        v.push(Cfg18 { name: format!("clicks-ch{}-tonal{}-lpc8", ch, tonal), stream_api: false, ch, bps: 16, lpc: Some(8), mid_side: true, fast: false, signal: CLICKS + tonal as u32, frames: 768, block: 256, window: 0 });
+    }
     v
 }
 
+pub const CLICKS: u32 = 2_000_000;
 pub const HETERO: u32 = 1_000_000;
 pub const SWEEP_SIGNALS: usize = 120;
 
 pub fn pcm18(c: &Cfg18) -> Vec<i32> {
+    if c.signal >= CLICKS {
+        let tonal = (c.signal - CLICKS) as usize;
+        let mut lcg: u32 = 0x1234_5678;
+        return (0..c.frames * c.ch as usize)
+            .map(|k| {
+                let (i, ch) = (k / c.ch as usize, k % c.ch as usize);
+                if ch == tonal {
+                    lcg = lcg.wrapping_mul(1_664_525).wrapping_add(1_013_904_223);
+                    let t = i as f64;
+                    (9000.0 * (t * 0.031).sin() + 5000.0 * (t * 0.0713).sin()) as i32 + ((lcg >> 24) as i32 - 128) / 16
+                } else if i % c.block as usize == 64 + ((i / c.block as usize) * 7 + ch * 13) % 128 {
+                    1001 + 2 * ch as i32
+                } else {
+                    0
+                }
+            })
+            .collect();
+    }
     if c.signal >= HETERO {
         let code = c.signal - HETERO;
         let noise = |seed: u64, i: usize| -> i64 {
